@@ -12,6 +12,7 @@
 import Rl.Editor
 import Rl.Lemmas.Undo
 import Rl.Lemmas.EditorLoops
+import Rl.Lemmas.UndoBottom
 open Rl
 
 /-! ### the stack is an exact log -/
@@ -789,3 +790,76 @@ example : ¬ Balanced { level := 0, undos := [.end_], redos := [] } := by simp [
 /-- truncate after an aborted group on a concrete log, with a nested begin -/
 example : ((((Changeset.new.insertStr 0 ['a']).begin.1.insertStr 1 ['b']).begin.1).truncate 1) =
     { level := 0, undos := [.insert 0 ['a']], redos := [] } := by decide
+
+/-! ### the bottom of the log inside a sub-loop — vi mode included (finding D49) -/
+
+/-- **The group markers keep the bottom of the log.**  `BotGood bk m us`: the bottom `m` entries of the
+    stack `us` replay some text to a PREFIX of `bk` (the line backed up when a sub-loop started; `m` its
+    mark).  `begin`, `end` (which in vi mode may POP `Begin`s below the mark: a key that leaves insert mode
+    closes every group) and the mark update `mark.min(len)` after `next_cmd` keep it, for every stack, level
+    and mark. -/
+theorem C05_markers_keep_bottom (bk : Text) (m : Nat) (c : Changeset) (h : BotGood bk m c.undos) :
+    BotGood bk m c.begin.1.undos ∧ BotGood bk m c.end_.1.undos ∧ BotGood bk (min m c.undos.length) c.undos :=
+  ⟨(botGood_marker (x := .begin) rfl c.undos).mpr h, botGood_endLoop c.level c.undos false h, botGood_min.mpr h⟩
+
+/-- **`update` keeps the bottom of the log** (the incremental search shows an entry / restores the line with
+    `update`, which reports `Delete(0, old)` and `Insert(0, new)`): if the stack replays `t0` to the line
+    `old`, the mark `m` is within the stack and the bottom `m` entries replay to a prefix of `bk`, then the
+    same holds after the listener has processed `update`'s notifications — INCLUDING the case where the
+    `Delete` is merged into a `Delete` on top of the bottom part (nothing above the mark, `old` one
+    alphanumeric cluster: finding D49); the bottom then replays to the empty text. -/
+theorem C05_update_keeps_bottom (S : Segmenter) (alnum : Char → Bool) (bk : Text) (m : Nat) (c : Changeset)
+    (old new t0 : Text) (hA : replayLog c.undos.reverse t0 = some old) (hm : m ≤ c.undos.length)
+    (hB : BotGood bk m c.undos) :
+    m ≤ (c.onNotifs S alnum (updNotifs old new)).undos.length ∧
+      BotGood bk m (c.onNotifs S alnum (updNotifs old new)).undos :=
+  botGood_update S alnum c old new t0 hA hm hB
+
+/-- **What an abort's cut leaves replays to a prefix of the backed-up line** — `truncate(mark)` as the abort
+    paths call it (with the re-closing of groups when every group was closed), for every stack and level:
+    if the bottom `m` entries replay some text to a prefix of `bk`, so does the log after the cut.  (In emacs
+    mode the log after the cut IS the log before the loop — `C05_abort_transparent_emacs`; in vi mode that is
+    false — `C05_abort_transparent_vi_false`, D49 — and this is what remains true.) -/
+theorem C05_abort_cut_replays_prefix (bk : Text) (m : Nat) (c : Changeset) (h : BotGood bk m c.undos) :
+    ∃ t0 p w, replayLog (c.truncateClosed m).undos.reverse t0 = some p ∧ bk = p ++ w := by
+  obtain ⟨t0, p, w, hr, hb⟩ := h
+  refine ⟨t0, p, w, ?_, hb⟩
+  unfold Changeset.truncateClosed
+  split
+  · exact (C05_log_markers (c.truncate m) t0 p hr).2
+  · exact hr
+
+/-- **Inside the circular completion nothing below the loop's `Begin` is touched** — `AboveNB base us`: the
+    stack is `above ++ Begin :: base` and `above` has an entry that is not a `Begin` (the loop logs its first
+    `replace` before it reads a key).  `begin`, `end` (in vi mode it cannot reach the loop's `Begin`: it pushes
+    `End` on the first entry that is not a `Begin`) and every sequence of listener notifications keep it, and
+    the part below the mark `base.length` is `base` itself. -/
+theorem C05_completion_keeps_base (S : Segmenter) (alnum : Char → Bool) (base : List Change) (c : Changeset)
+    (ns : List Notif) (h : AboveNB base c.undos) :
+    AboveNB base c.begin.1.undos ∧ AboveNB base c.end_.1.undos ∧ AboveNB base (c.onNotifs S alnum ns).undos ∧
+      base.length < c.undos.length ∧ c.undos.drop (c.undos.length - base.length) = base := by
+  refine ⟨?_, ?_, aboveNB_onNotifs S alnum ns c h, aboveNB_facts h⟩
+  · obtain ⟨above, hu, x, hx, hne⟩ := h
+    exact ⟨.begin :: above, by show Change.begin :: c.undos = _; rw [hu]; rfl, x, List.mem_cons_of_mem _ hx, hne⟩
+  · obtain ⟨above, hu, hnb⟩ := h
+    show AboveNB base (Changeset.endLoop c.level c.undos false).1
+    rw [hu]; exact aboveNB_endLoop _ _ _ hnb
+
+/-- **D49 at the level of the log** (witness, and non-vacuity of `C05_update_keeps_bottom` in its merge
+    case): the log `[Delete(1,"y"), Insert(0,"xy")]` with the line "x" and the mark 2 at the top of the log
+    (the search's `Begin` was popped); `update("a")` merges its `Delete(0,"x")` into the entry below the mark;
+    the two bottom entries then replay "" to "" — a proper prefix of the backed-up line "x" — and an abort
+    that cuts back to the mark keeps the merged entry. -/
+theorem C05_D49_log_witness :
+    (({ level := 0, undos := [.delete 1 ['y'], .insert 0 ['x', 'y']], redos := [] } : Changeset).onNotifs
+        charSeg (fun _ => true) (updNotifs ['x'] ['a'])).undos
+      = [.insert 0 ['a'], .delete 0 ['x', 'y'], .insert 0 ['x', 'y']] ∧
+    replayLog ([Change.delete 0 ['x', 'y'], .insert 0 ['x', 'y']] : List Change).reverse [] = some [] := by
+  decide
+
+/-- non-vacuity of `BotGood` / `AboveNB`: the state of a completion loop right after its first `replace` -/
+example : AboveNB [.insert 0 ['a']] [.replace 0 ['a'] ['a', 'b'], .begin, .insert 0 ['a']] ∧
+    BotGood ['a'] 1 [.replace 0 ['a'] ['a', 'b'], .begin, .insert 0 ['a']] :=
+  ⟨⟨[.replace 0 ['a'] ['a', 'b']], rfl, _, List.mem_cons_self, (by intro h; cases h)⟩,
+   ⟨[], ['a'], [], (by decide), rfl⟩⟩
+
